@@ -693,12 +693,76 @@ theorem keepPiece_append (p tail : List Tok) (h : keepPiece p = true) : keepPiec
   | cons t r ih =>
     cases t <;> simp_all [keepPiece, firstToken]
 
-/-- with the splitter in the loop (level-0 token streams): appending `;` tokens to a script that ends in a statement
-    terminated by `;` yields exactly the same statements -/
+/-! ### with the splitter in the loop (level-0 token streams) -/
+
+/-- a statement without the semicolons, blanks, line breaks and comments that trail it -/
+def core (p : List Tok) : List Tok := (p.reverse.dropWhile (fun t => !t.isCode)).reverse
+
+private theorem keepPiece_snoc (p : List Tok) (t : Tok) (ht : t.isCode = false) : keepPiece (p ++ [t]) = keepPiece p := by
+  induction p with
+  | nil => cases t <;> simp_all [keepPiece, firstToken, Tok.isCode]
+  | cons x r ih =>
+    cases x <;> simp_all [keepPiece, firstToken]
+
+private theorem core_snoc (p : List Tok) (t : Tok) (ht : t.isCode = false) : core (p ++ [t]) = core p := by
+  unfold core
+  rw [List.reverse_append, List.reverse_singleton, List.singleton_append, List.dropWhile_cons]
+  simp [ht]
+
+private theorem firstToken_allWs : ∀ (p : List Tok), p.all Tok.isWs = true → firstToken p = none
+  | [], _ => rfl
+  | t :: r, h => by
+    simp only [List.all_cons, Bool.and_eq_true] at h
+    cases t <;> simp_all [firstToken, Tok.isWs, firstToken_allWs r]
+
+/-- what `split` keeps of a splitter state: the pending statement counts whether or not the splitter would yield it -/
+private def fin (st : CutState) : List (List Tok) := splitKeep (st.done ++ [st.cur])
+
+private theorem splitKeep_cutFinish (st : CutState) : splitKeep (cutFinish st) = fin st := by
+  unfold cutFinish fin splitKeep
+  split
+  · next h =>
+    have : keepPiece st.cur = false := by
+      rcases Bool.or_eq_true _ _ |>.mp h with h | h
+      · rw [List.isEmpty_iff.mp h]; rfl
+      · unfold keepPiece; rw [firstToken_allWs _ h]
+    simp [List.filter_append, this]
+  · rfl
+
+private theorem fin_step (st : CutState) (t : Tok) (ht : t.isCode = false) :
+    (fin (cutStep st t)).map core = (fin st).map core := by
+  have hk : keepPiece [t] = false := by cases t <;> simp_all [keepPiece, firstToken, Tok.isCode]
+  unfold cutStep fin splitKeep
+  by_cases hc : (st.consume && !t.isEos) = true
+  · simp [hc, List.filter_append, List.filter_cons, hk]
+  · simp only [hc, Bool.false_eq_true, if_false, List.filter_append, List.map_append, List.filter_cons, List.filter_nil]
+    rw [keepPiece_snoc _ _ ht]
+    split
+    · simp [core_snoc _ _ ht]
+    · rfl
+
+private theorem fin_foldl : ∀ (tail : List Tok) (st : CutState), (∀ t ∈ tail, t.isCode = false) →
+    (fin (tail.foldl cutStep st)).map core = (fin st).map core
+  | [], _, _ => rfl
+  | t :: r, st, h => by
+    rw [List.foldl_cons, fin_foldl r (cutStep st t) (fun x hx => h x (List.mem_cons_of_mem _ hx)),
+      fin_step st t (h t (List.mem_cons_self ..))]
+
+/-- **extra trailing semicolons, with any blanks, line breaks and comments (even containing `;`) between and after them,
+    change no statement**: the statements `split` returns for the longer script are those of the original, each up to
+    the noise that trails it (`select 1` ↦ `select 1 ; -- c;`).  For every level-0 token stream. -/
+theorem trailing_semicolons_stream (toks tail : List Tok) (h : ∀ t ∈ tail, t.isCode = false) :
+    (splitModel (toks ++ tail)).map core = (splitModel toks).map core := by
+  unfold splitModel cutPieces
+  rw [splitKeep_cutFinish, splitKeep_cutFinish, List.foldl_append]
+  exact fin_foldl tail _ h
+
 example :
     let s := [Tok.code "select 1", .semi]
     splitModel (s ++ [.semi, .blank " ", .semi, .newline, .blockComment "/*c;*/", .semi]) = splitModel s ∧
     splitModel ([Tok.code "select 1", .blank " ", .lineComment "-- c;\n", .semi, .semi]) =
-      [[Tok.code "select 1", .blank " ", .lineComment "-- c;\n", .semi]] := by decide
+      [[Tok.code "select 1", .blank " ", .lineComment "-- c;\n", .semi]] ∧
+    (splitModel [Tok.code "select 1", .semi, .newline, .code "select 2", .blank " ", .semi, .semi]).map core =
+      [[Tok.code "select 1"], [.newline, .code "select 2"]] := by decide
 
 end SqlLineage.Props.C07
